@@ -46,6 +46,8 @@ var c04LitsFn = []string{
 	"_ = X", "X = _", "_ != X", "_ = fn:plus(X, 1)",
 	":list:member(X, [X])", ":list:member(Y, [X, Y])", ":list:member(X, [1, Y])",
 	"fn:plus(Y, 1) < 3", "X < fn:plus(Y, 1)", ":match_pair(fn:pair(X, Y), X, Z)", "Y = fn:plus(fn:plus(X, 1), Z)",
+	// negated built-ins (prefix form) over bound variables, unbound variables and function applications
+	"!:lt(X, 2)", "!:le(Y, X)", "!:lt(fn:plus(X, 1), 3)", "!:list:member(X, [1, Y])",
 }
 
 // transform tails for the function family: let chains in and out of definition order
